@@ -125,6 +125,48 @@ def decField (impl : String) : String :=
   | [_, d] => d
   | _ => "?"
 
+/-- one step of a history (op `hist`): `kind=arg`; result `(model rendering, spec ok, codec)`.
+    Encode steps: `impl` is the hex of the bytes the call returned, *as they are at the end of the history*; they must
+    still be an encoding of the value (the map iteration order is recovered from the bytes themselves).
+    Decode steps: `impl` is the canonical rendering of the retained value at the end of the history. -/
+def histStep (tbl : List (String × String)) (step impl : String) : Option (String × Bool × String) :=
+  match step.splitOn "=" with
+  | ["ssenc", ks] => do
+    let keys ← parseSet ks
+    let enc ← hexToBytes? impl
+    let dec := stringSetDecode enc
+    let order : List Bytes := match dec with | .ok ⟨some l, _, _⟩ => l | _ => []
+    let ok := stringSetEncode order == enc && showSet order == showSet keys && order.length == keys.length
+    pure (if ok then bytesToHex enc else "NOT-AN-ENCODING-OF-THE-VALUE", checkRoundTripP (showSet keys) (showRet showSet dec), "stringset")
+  | ["rmenc", ms] => do
+    let m ← parseRMap ms
+    let enc ← hexToBytes? impl
+    let dec := reposMapDecode enc
+    let order : Option RMap := match dec with | .ok ⟨some v, _, _⟩ => v | _ => none
+    let ok := reposMapEncode order == enc && showRMap order == showRMap m
+    pure (if ok then bytesToHex enc else "NOT-AN-ENCODING-OF-THE-VALUE", checkRoundTripP (showRMap m) (showRet showRMap dec), "reposmap")
+  | ["brenc", es] => do
+    let entries ← parseBrEntries es
+    let enc := branchesReposEncode entries
+    let implEnc ← hexToBytes? impl
+    let dec := branchesReposDecode (tableParse tbl) implEnc
+    let orig := if entries.isEmpty then "-" else ";".intercalate (entries.map fun p =>
+      xhex p.1 ++ ":" ++ ((tableParse tbl p.2).getD "E"))
+    pure (bytesToHex enc, checkRoundTripP orig (showRet showBrList dec), "branchesrepos")
+  | ["ssdec", h] => do
+    let b ← hexToBytes? h
+    let m := showRet showSet (stringSetDecode b)
+    pure (m, checkHistoryStepP m impl, "stringset")
+  | ["rmdec", h] => do
+    let b ← hexToBytes? h
+    let m := showRet showRMap (reposMapDecode b)
+    pure (m, checkHistoryStepP m impl, "reposmap")
+  | ["brdec", h] => do
+    let b ← hexToBytes? h
+    let m := showRet showBrList (branchesReposDecode (tableParse tbl) b)
+    pure (m, checkHistoryStepP m impl, "branchesrepos")
+  | _ => none
+
 def handle (line : String) : String :=
   let (inp, impl) := splitCase line
   match fields inp with
@@ -180,6 +222,21 @@ def handle (line : String) : String :=
         xhex p.1 ++ ":" ++ ((tableParse tbl p.2).getD "E"))
       if checkRoundTripP orig (decField impl) then answer model else specFail model "roundtrip:branchesrepos"
     | _, _ => badCase "fields"
+  | ["hist", steps, t] =>
+    -- a history of calls on one process; impl: the retained results as they are after the last call, `|`-separated
+    match parseTable t with
+    | some tbl =>
+      let ss := steps.splitOn "|"
+      let is := impl.splitOn "|"
+      if ss.length != is.length then badCase "hist: step / result count" else
+      match (ss.zip is).mapM (fun p => histStep tbl p.1 p.2) with
+      | some rs =>
+        let model := "|".intercalate (rs.map (·.1))
+        match rs.find? (fun r => !r.2.1) with
+        | some bad => specFail model ("history:result-not-stable:" ++ bad.2.2)
+        | none => answer model
+      | none => badCase "hist: step"
+    | none => badCase "table"
   | _ => badCase "op"
 
 def main : IO Unit := runLines handle
